@@ -21,8 +21,13 @@
 //	  R qa=<n> qb=<n> online=<n> ha=<n> hb=<n> wa=<0|1> wb=<0|1>[ got=<conn|err|closed|blocked>][ ra=<…>][ rb=<…>]
 //
 //	C <id> hsim io=<nb|blk>     a real nbhttp engine under forced schedules: gated OnOpen, gated listener (see runHsim)
-//	  O conn gate=<0|1> | release | peerclose <i> | late | stop | shutdown | wait | Q
+//	  O conn gate=<0|1> | release | peerclose <i> | req <i> | relreq | late | stop | shutdown | wait | Q
 //	  R online=<n> opens=<n> closes=<n> ret=<none|nil|ctx|hang>[ leak=<n>]
+//	  (`req i`: conn i sends a request whose handler is held until `relreq`; oracles c05-overlap / c05-close-order, for
+//	  C05 through `gen -tier c05`: the conn's close handling ran while / before that handler had finished)
+//
+//	C <id> ioblock attempts=<k> Stop racing a busy read task of the default IO task pool (see runIOBlock)
+//	  O run                       R ret=<nil|hang> attempts=<k>
 //
 // Direct oracles (implementation only):
 //
@@ -92,7 +97,39 @@ func genLmux(g *lp.Gen, id int) {
 }
 
 // genHsim: forced schedules on a real nbhttp engine (gated OnOpen, gated listener), see runHsim.
+// genHsimReq: a request whose handler is held while Stop / Shutdown closes its connection: the connection's close
+// handling (CloseAndClean, OnClose, delete) is a job of the conn's queue and has to wait for the handler (C05; the
+// observation online/opens/closes/ret is C18's).
+func genHsimReq(g *lp.Gen, id int) {
+	g.P("C %d hsim io=nb", id)
+	n := 1 + g.Intn(3)
+	for k := 0; k < n; k++ {
+		g.P("O conn gate=0")
+	}
+	g.P("O req %d", g.Intn(n))
+	if g.Intn(2) == 0 {
+		g.P("O shutdown")
+	} else {
+		g.P("O stop")
+	}
+	if g.Intn(3) == 0 {
+		g.P("Q")
+	}
+	g.P("O relreq")
+	g.P("O wait")
+}
+
+// genIOBlock: Stop racing a busy read task of the engine's default IO task pool (ET + AsyncReadInPoller).
+func genIOBlock(g *lp.Gen, id int) {
+	g.P("C %d ioblock attempts=%d", id, 8)
+	g.P("O run")
+}
+
 func genHsim(g *lp.Gen, id int) {
+	if g.Intn(4) == 0 {
+		genHsimReq(g, id)
+		return
+	}
 	g.P("C %d hsim io=%s", id, g.Pick("nb", "blk", "nb"))
 	n := g.Intn(4)
 	conns := 0
@@ -125,7 +162,19 @@ func genHsim(g *lp.Gen, id int) {
 }
 
 func gen(g *lp.Gen) {
+	if g.Tier == "c05" {
+		// C05's view of this harness: only the forced schedules with a held request handler (oracles c05-overlap,
+		// c05-close-order)
+		for i := 0; i < g.N; i++ {
+			genHsimReq(g, i)
+		}
+		return
+	}
 	for i := 0; i < g.N; i++ {
+		if i%30 == 11 {
+			genIOBlock(g, i)
+			continue
+		}
 		if i%10 == 7 {
 			genLmux(g, i)
 			continue
@@ -1270,6 +1319,19 @@ func runHsim(e *lp.Exec, head string, ops []string) {
 	var gl *gateListener
 	mux := http.NewServeMux()
 	mux.HandleFunc("/", func(w http.ResponseWriter, q *http.Request) { _, _ = w.Write([]byte("ok")) })
+	// a request handler the harness holds: while it runs, nothing else of its connection may run (C05) — in particular
+	// not the connection's close handling, which is queued behind it
+	var handlerRunning, closeDuringHandler int32
+	var heldAddr atomic.Value
+	heldAddr.Store("")
+	reqGate := make(chan struct{})
+	mux.HandleFunc("/held", func(w http.ResponseWriter, q *http.Request) {
+		heldAddr.Store(q.RemoteAddr)
+		atomic.StoreInt32(&handlerRunning, 1)
+		<-reqGate
+		atomic.StoreInt32(&handlerRunning, 0)
+		_, _ = w.Write([]byte("ok"))
+	})
 	he := nbhttp.NewEngine(nbhttp.Config{Network: "tcp", Addrs: []string{"127.0.0.1:0"}, NPoller: 1, Handler: mux, IOMod: im, MessageHandlerPoolSize: 16,
 		Listen: func(network, addr string) (net.Listener, error) {
 			ln, err := net.Listen(network, addr)
@@ -1287,11 +1349,17 @@ func runHsim(e *lp.Exec, head string, ops []string) {
 		}
 		atomic.AddInt32(&opens, 1) // counted when the handler returns
 	})
-	he.OnClose(func(c net.Conn, err error) { atomic.AddInt32(&closes, 1) })
+	he.OnClose(func(c net.Conn, err error) {
+		if atomic.LoadInt32(&handlerRunning) == 1 && c.RemoteAddr() != nil && c.RemoteAddr().String() == heldAddr.Load().(string) {
+			atomic.StoreInt32(&closeDuringHandler, 1)
+		}
+		atomic.AddInt32(&closes, 1)
+	})
 	if err := he.Start(); err != nil {
 		panic(err)
 	}
 	addr := he.Addrs[0]
+	reqHeld := false
 	var clients []net.Conn
 	var lateClients []net.Conn
 	ret := "none"
@@ -1349,6 +1417,18 @@ func runHsim(e *lp.Exec, head string, ops []string) {
 			if i := atoi(ow[2]); i < len(clients) {
 				_ = clients[i].Close()
 			}
+		case ow[1] == "req":
+			if i := atoi(ow[2]); i < len(clients) && !reqHeld {
+				reqHeld = true
+				_, _ = clients[i].Write([]byte("GET /held HTTP/1.1\r\nHost: x\r\n\r\n"))
+				waitFor(func() bool { return atomic.LoadInt32(&handlerRunning) == 1 }, 2*time.Second)
+			}
+		case ow[1] == "relreq":
+			if reqHeld {
+				reqHeld = false
+				close(reqGate)
+				waitFor(func() bool { return atomic.LoadInt32(&handlerRunning) == 0 }, 2*time.Second)
+			}
 		case ow[1] == "late":
 			atomic.StoreInt32(&gl.late, 1)
 			c, err := net.DialTimeout("tcp", addr, 2*time.Second)
@@ -1402,11 +1482,18 @@ func runHsim(e *lp.Exec, head string, ops []string) {
 			retMu.Lock()
 			r := ret
 			retMu.Unlock()
-			if r != "nil" && !gated {
+			if r != "nil" && !gated && !reqHeld {
 				e.Oracle("c18-hang", "class=unexplained nbhttp %s did not return nil (ret=%s) although every connection was closed and no handler was blocked: %s", map[bool]string{true: "Shutdown with a live context", false: "Stop"}[graceful], r, st)
 			}
 			if r == "nil" && he.Online() != 0 {
 				e.Oracle("c18-close-count", "nbhttp: %d entries left in engine.conns after %s returned nil", he.Online(), ow[1])
+			}
+		}
+		if stopping && !gated && !reqHeld && ow[0] == "O" && ow[1] != "wait" {
+			// nothing is held any more: Stop / Shutdown is on its way to return; a loaded machine only makes it slower
+			select {
+			case <-done:
+			case <-time.After(3 * time.Second):
 			}
 		}
 		st := settle()
@@ -1414,8 +1501,15 @@ func runHsim(e *lp.Exec, head string, ops []string) {
 		e.P("R %s%s", st, extra)
 		shape += "|" + ow[len(ow)-1][:1] + "/" + st
 	}
+	if atomic.LoadInt32(&closeDuringHandler) == 1 {
+		e.Oracle("c05-overlap", "nbhttp: the close handling of a connection (CloseAndClean / OnClose) ran while a request handler of the same connection was still running (handler held by the harness, connection closed by %s)", map[bool]string{true: "Shutdown", false: "Stop"}[graceful])
+		e.Oracle("c05-close-order", "nbhttp: the close handling of a connection ran before the handler job that was queued (and running) before it had finished")
+	}
 	if gated {
 		close(gate)
+	}
+	if reqHeld {
+		close(reqGate)
 	}
 	if !stopping {
 		he.Stop()
@@ -1448,6 +1542,85 @@ func runHsim(e *lp.Exec, head string, ops []string) {
 	}
 	e.Key(shape, len(clients)+len(lateClients) > 0)
 	e.Count("hsim", "cases")
+}
+
+// runIOBlock: Engine.Stop racing a busy read task of the engine's DEFAULT IO task pool (EPOLLET + AsyncReadInPoller:
+// reads are handed to taskpool.NewIO(0, 0, …), an unbuffered queue served by one dispatcher goroutine). The data
+// callback of conn A is held, data arrives on conn B: the poller blocks handing B's read over. Then Stop, then the
+// handler is released. Stop must return (the pool's Stop unblocks the poller). Whether a broken hand-over shows
+// depends on a `select` of the dispatcher (probability 1/2 per attempt), so the schedule is repeated.
+//
+//	C <id> ioblock attempts=<k>      O run      R ret=nil attempts=<k>
+func runIOBlock(e *lp.Exec, head string, ops []string) {
+	ws := strings.Fields(head)
+	attempts := atoi(field(ws, "attempts"))
+	vsys.VirtualAll = false
+	e.P("> %s", head)
+	e.P("ok")
+	for _, ln := range ops {
+		ow := strings.Fields(ln)
+		if ow[0] != "O" || ow[1] != "run" {
+			e.P("> %s", ln)
+			e.P("R -")
+			continue
+		}
+		hung := -1
+		for a := 0; a < attempts && hung < 0; a++ {
+			var first atomic.Value
+			gate := make(chan struct{})
+			var held int32
+			g := nbio.NewEngine(nbio.Config{Network: "tcp", Addrs: []string{"127.0.0.1:0"}, NPoller: 1, EpollMod: nbio.EPOLLET, AsyncReadInPoller: true})
+			g.OnOpen(func(c *nbio.Conn) {
+				if first.Load() == nil {
+					first.Store(c)
+				}
+			})
+			g.OnData(func(c *nbio.Conn, data []byte) {
+				if f, _ := first.Load().(*nbio.Conn); f == c && atomic.CompareAndSwapInt32(&held, 0, 1) {
+					<-gate
+				}
+			})
+			if err := g.Start(); err != nil {
+				panic(err)
+			}
+			ca, err := net.DialTimeout("tcp", g.Addrs[0], 2*time.Second)
+			if err != nil {
+				panic(err)
+			}
+			waitFor(func() bool { return first.Load() != nil }, 2*time.Second)
+			cb, err := net.DialTimeout("tcp", g.Addrs[0], 2*time.Second)
+			if err != nil {
+				panic(err)
+			}
+			time.Sleep(5 * time.Millisecond)
+			_, _ = ca.Write([]byte("a"))
+			waitFor(func() bool { return atomic.LoadInt32(&held) == 1 }, 2*time.Second)
+			_, _ = cb.Write([]byte("b")) // the poller hands B's read to the pool: the dispatcher is busy with A
+			time.Sleep(20 * time.Millisecond)
+			done := make(chan struct{})
+			go func() { g.Stop(); close(done) }()
+			time.Sleep(20 * time.Millisecond) // Stop is past ioTaskPool.Stop() and waits for the poller
+			close(gate)
+			select {
+			case <-done:
+			case <-time.After(5 * time.Second):
+				hung = a
+			}
+			_ = ca.Close()
+			_ = cb.Close()
+		}
+		ret := "nil"
+		if hung >= 0 {
+			ret = "hang"
+			buf := make([]byte, 1<<16)
+			buf = buf[:runtime.Stack(buf, true)]
+			e.Oracle("c18-hang", "class=unexplained Engine.Stop (EPOLLET, AsyncReadInPoller, default IO task pool) did not return within 5s after the held data handler was released (attempt %d of %d: conn A's data handler held, conn B's read being handed to the pool, then Stop); %s", hung+1, attempts, summarizeStacks(string(buf)))
+		}
+		e.P("> %s", ln)
+		e.P("R ret=%s attempts=%d", ret, attempts)
+		e.Key(fmt.Sprintf("ioblock|%s", ret), true)
+		e.Count("ioblock", "cases")
+	}
 }
 
 func diffNames(a, b []string) []string {
@@ -1515,6 +1688,8 @@ func exec(e *lp.Exec) {
 		}
 		if strings.Contains(head, " sim") {
 			runSim(e, head, ops)
+		} else if strings.Contains(head, " ioblock") {
+			runIOBlock(e, head, ops)
 		} else if strings.Contains(head, " hsim") {
 			runHsim(e, head, ops)
 		} else if strings.Contains(head, " lmux") {
